@@ -59,7 +59,7 @@ def growthSpec (ncols : Nat) (AA : CSC Q) (perm_c : Array Nat) (F : LUFac Q) (sm
   (List.range (min ncols n)).foldl (fun rpg j =>
     let old := ((List.range n).find? fun t => perm_c.getD t n == j).getD 0
     let maxaj := (AA.col old).foldl (fun m e => max m (qabs1 e.2)) 0
-    let maxuj := (List.range (j + 1)).foldl (fun m i => max m (qabs1 (F.decodeU i j))) 0
+    let maxuj := (List.range (j + 1)).foldl (fun m i => max m (qabs1 (decodeUg F i j))) 0
     if maxuj = 0 then min rpg 1 else min rpg (maxaj / maxuj)) (1 / sml)
 
 structure Bounds where
@@ -101,10 +101,11 @@ def prop (c : Case) : Option String × List String := Id.run do
     | none => some s!"{key} is not finite"
     | some rpg =>
       let want := growthSpec ncols AA perm_c F sml
-      if rabs (rpg - want) > 2 * eps * want then
+      -- real: one rounding (the quotient); complex: |re|+|im| rounds once in each maximum
+      if rabs (rpg - want) > (if cplx then 5 else 2) * eps * want then
         let empty := (List.range (min ncols n)).find? fun j => F.L.nsupr j = 0
         some (s!"reciprocal pivot growth over {ncols} columns is not min_j max|A_j|/max|U_j| of the returned factors" ++
-          (match empty with | some j => s!" (column {j}: its supernode stores no rows, the scan reads outside it)" | none => ""))
+          (match empty with | some j => s!" (column {j}: its supernode stores no rows)" | none => ""))
       else none
   if let some m := chk (if singular then info else n) "rpg" then return (some m, [])
   if let some m := chk (c.pNat "pgk") "rpgk" then return (some m, [])
@@ -124,7 +125,7 @@ def prop (c : Case) : Option String × List String := Id.run do
         m := m.set! pi ((m.getD pi #[]).set! pj (A.get i j))
     return m
   let Lh : Mat := Mat.ofFn n n fun i j => F.decodeL i j
-  let Uh : Mat := Mat.ofFn n n fun i j => F.decodeU i j
+  let Uh : Mat := Mat.ofFn n n fun i j => decodeUg F i j
   let M := Mat.mul Lh Uh n n n
   let E := Mat.subM M Ap n n
   let W := Mat.mul Lh.absHi Uh.absHi n n n
